@@ -764,6 +764,52 @@ def _complete_follow(ctx):
     return lambda h: h.module is c.module and h.parent is None and h.cls is None and h.name not in _SCHED_ANCHORS
 
 
+def _entry_dict(fn, e, depth=0):
+    """the chronicle entry as one dict display, whatever way it is assembled: a literal, a local bound once to one,
+    `dict(<base>, k=v, ...)`, `{**<base>, 'k': v}` or `<base> | {...}` (later keys win, as in Python)"""
+    if depth > 4:
+        return None
+    if isinstance(e, ast.Name):
+        return _entry_dict(fn, _single_assign(fn, e.id), depth + 1)
+    if isinstance(e, ast.Dict):
+        keys, vals = [], []
+        for k, v in zip(e.keys, e.values):
+            if k is None:
+                base = _entry_dict(fn, v, depth + 1)
+                if not isinstance(base, ast.Dict):
+                    return None
+                keys += base.keys
+                vals += base.values
+            else:
+                keys.append(k)
+                vals.append(v)
+        return ast.copy_location(ast.Dict(keys=keys, values=vals), e)
+    if isinstance(e, ast.Call) and isinstance(e.func, ast.Name) and e.func.id == 'dict':
+        keys, vals = [], []
+        for a in e.args:
+            base = _entry_dict(fn, a, depth + 1)
+            if not isinstance(base, ast.Dict):
+                return None
+            keys += base.keys
+            vals += base.values
+        for k in e.keywords:
+            if k.arg is None:
+                base = _entry_dict(fn, k.value, depth + 1)
+                if not isinstance(base, ast.Dict):
+                    return None
+                keys += base.keys
+                vals += base.values
+            else:
+                keys.append(ast.Constant(value=k.arg))
+                vals.append(k.value)
+        return ast.copy_location(ast.Dict(keys=keys, values=vals), e)
+    if isinstance(e, ast.BinOp) and isinstance(e.op, ast.BitOr):
+        a, b = _entry_dict(fn, e.left, depth + 1), _entry_dict(fn, e.right, depth + 1)
+        if isinstance(a, ast.Dict) and isinstance(b, ast.Dict):
+            return ast.copy_location(ast.Dict(keys=a.keys + b.keys, values=a.values + b.values), e)
+    return None
+
+
 def _complete_roles(ctx):
     """parameter names of schedule.complete by role, derived from the chronicle entry it (or a followed helper) writes:
     'status' <- P.name, 'target' <- P, 'runid' <- P, 'task' <- P.tag   -> (complete, [append calls], entry dict, roles, frames)"""
@@ -778,9 +824,7 @@ def _complete_roles(ctx):
             if _qcallee(prog, x, fr.func) == CHRON:
                 calls.append(x)
                 if x.args:
-                    e = x.args[0]
-                    if isinstance(e, ast.Name):
-                        e = _single_assign(fr.func, e.id)
+                    e = _entry_dict(fr.func, x.args[0])
                     if isinstance(e, ast.Dict):
                         entry, efr = e, fr
     roles = {}
@@ -1863,6 +1907,88 @@ def _rule4(ctx, rep):
 # ---------------------------------------------------------------------------
 
 
+def _rule5(ctx, rep):
+    """the reply reaches the routing (added after seeded change C05-8: the busy-list cleanup at the top of Hand._res became
+    `while done in _busy: _busy.remove(done); del _time[done]`; for a unit listed twice the second pass raised KeyError
+    before find / complete / purge ran and the failure was never recorded nor withdrawn)"""
+    prog = ctx.prog
+    f = prog.nfunc('dawgie.pl.farm.Hand._res')
+    rep.analysed(f)
+    with rep.rule(
+        'R-C05-5',
+        'in Hand._res nothing that can raise on its own input precedes the routing: before schedule.find is called, every `del <map>[k]`, `<map>[k]` read and `<list>.remove(k)` is dominated by a membership test of k in that container (or sits in a try that catches it)',
+        floor=1,
+        breaks='an exception in the book-keeping prologue discards the reply: the failed run is not recorded and its target is not withdrawn from the dependents',
+    ) as r:
+        class Pro(Flow):
+            def __init__(s):
+                super().__init__()
+                s.bad = []
+
+            @staticmethod
+            def _fact(e):
+                # k in X  /  0 < X.count(k)  /  X.count(k) > 0  ->  (X text, k text)
+                if isinstance(e, ast.Compare) and len(e.ops) == 1:
+                    a, b, op = e.left, e.comparators[0], e.ops[0]
+                    if isinstance(op, ast.In):
+                        return (norm(b), norm(a), True)
+                    if isinstance(op, ast.NotIn):
+                        return (norm(b), norm(a), False)
+                    for x, y, strict in ((a, b, isinstance(op, ast.Gt)), (b, a, isinstance(op, ast.Lt))):
+                        if strict and isinstance(y, ast.Constant) and y.value == 0 and isinstance(x, ast.Call) and isinstance(x.func, ast.Attribute) and x.func.attr == 'count' and x.args:
+                            return (norm(x.func.value), norm(x.args[0]), True)
+                return None
+
+            def on_test(s, e, st):
+                phase, facts = st
+                fc = s._fact(e)
+                if fc is not None:
+                    yes = (phase, facts | {(fc[0], fc[1])})
+                    return ((yes,), (st,)) if fc[2] else ((st,), (yes,))
+                return (st,), (st,)
+
+            def _need(s, node, cont, key, st):
+                phase, facts = st
+                if phase == 'pre' and not s._try and (norm(cont), norm(key)) not in facts:
+                    s.bad.append(node)
+
+            def on_stmt(s, node, st):
+                if isinstance(node, ast.Delete):
+                    for t in node.targets:
+                        if isinstance(t, ast.Subscript):
+                            s._need(node, t.value, t.slice, st)
+                return (st,)
+
+            def on_call(s, call, st):
+                phase, facts = st
+                if (prog.resolve_in(call.func, f) or '') == SCHED + '.find':
+                    return (('routed', facts),)
+                fn = call.func
+                if isinstance(fn, ast.Attribute) and fn.attr in ('remove', 'index') and call.args and isinstance(fn.value, (ast.Name, ast.Attribute)):
+                    s._need(call, fn.value, call.args[0], st)
+                    # after a removal the membership is no longer known
+                    return ((phase, frozenset(x for x in facts if x[0] != norm(fn.value))),)
+                return (st,)
+
+            def on_expr(s, e, st):
+                if isinstance(e, ast.Subscript) and isinstance(e.ctx, ast.Load) and not isinstance(e.slice, ast.Slice) and isinstance(e.value, (ast.Name, ast.Attribute)) and not isinstance(e.slice, ast.Constant):
+                    s._need(e, e.value, e.slice, st)
+                return (st,)
+
+        fl = Pro()
+        fl.run(f.node, ('pre', frozenset()))
+        if not any((prog.resolve_in(c.func, f) or '') == SCHED + '.find' for c in f.calls()):
+            raise AnalysisError('Hand._res no longer calls schedule.find')
+        r.instance()
+        r.check(
+            not fl.bad,
+            f'{f.qname}:prologue-cannot-raise',
+            where(f, fl.bad[0] if fl.bad else None),
+            'every keyed delete / read / remove before the routing is membership-guarded',
+            f'{f.qname}: {norm(fl.bad[0])[:60] if fl.bad else ""} before schedule.find is not guarded by a membership test: when the key is absent (a unit listed twice, a reply seen twice) the exception drops the reply',
+        )
+
+
 def check(ctx):
     rep = Report(
         PID,
@@ -1891,6 +2017,7 @@ def check(ctx):
     _rule2(ctx, rep, setup)
     _rule3(ctx, rep, setup)
     _rule4(ctx, rep)
+    _rule5(ctx, rep)
     return rep
 
 
@@ -1926,6 +2053,8 @@ _SETTLE = (
 _COMPLETE_CALL = 'dawgie.pl.schedule.complete(job, msg.runid, inc, msg.timing, state)\n\n            '
 
 VARIANTS = [
+    V('busy cleanup deletes the timing unguarded', 'B', _FARM, 'Hand._res', 'if done in _time:\n                del _time[done]', 'del _time[done]', 'R-C05-5'),
+    V('busy cleanup with membership loop', 'N', _FARM, 'Hand._res', 'while 0 < _busy.count(done):', 'while done in _busy:', None),
     V('cluster worker catch-all narrowed to Exception', 'B', _CL, 'execute', 'except:  # noqa: E722', 'except Exception:', 'R-C05-1'),
     V('aws worker catch-all named BaseException', 'N', _AWS, 'execute', 'except:  # noqa: E722', 'except BaseException:', None),
     # ---------------------------------------------------------------- breaking
